@@ -28,7 +28,18 @@ Input classes added when the check was strengthened (all part of A1 / A2):
  * generated parser OBJECTS are called with every per-call option model.parse gets (asmodel=, config=, semantics=,
    settings, start) and constructed from a caller-owned config object; ParserConfig objects are shared by all the calls
    of a history that use them (as a program reuses one config); write-set oracle on the parser's own configuration,
-   its active configuration after the call, the constructor's config and the config= argument of every call.
+   its active configuration after the call, the constructor's config and the config= argument of every call;
+ * regex-valued settings in different FORMS (grammars 10-12 and settings 7-12, generated from the seed): the pattern
+   text of whitespace / comments / eol_comments as a plain string, precompiled without flags, precompiled with a flag
+   that changes what the text matches (IGNORECASE / VERBOSE / DOTALL / MULTILINE), and the same text in @@directives
+   and in a /pattern/ of a rule; texts on which the flags matter; every form used after every other form of the same
+   text (parse / tatsu.parse / compile settings, caller-owned config objects, generated parser objects);
+ * T with FORCED PREEMPTION: first parses on a cold model whose type names nobody has used in the process (fresh names
+   per round), by 2-6 threads that are driven in lock step - through sys.monitoring LINE events - through every
+   function that touches state the threads share (found by inspection of the modules: module-level containers, locks,
+   function caches, the class registry, cached attributes of the model) and their direct callers: every thread does
+   the check of a check-then-act sequence before any thread acts.  Oracles: sequential results, and ONE class object
+   per type name over the results of all the threads and of a later sequential parse.
 """
 from __future__ import annotations
 
@@ -49,7 +60,7 @@ PID = 'C10'
 
 # =============================================================================== worker (runs in /repo's python)
 WORKER_SRC = r'''
-import sys, os, json, signal, hashlib, threading, dataclasses, gc, weakref
+import sys, os, re, json, signal, hashlib, threading, dataclasses, gc, weakref, types, functools, importlib
 import tatsu
 from tatsu.util import asjson
 from tatsu.objectmodel import Node, ModelBuilderSemantics
@@ -112,6 +123,15 @@ for _k, _v in EXTRA.get('texts', {}).items():
 STARTS = {0: None, 1: 'start', 2: 'a', 3: 'alt', 4: 'b', 5: 'atom', 6: 'nosuch', 7: 'item', 8: 'num'}
 SETTINGS = {0: {}, 1: {'whitespace': ''}, 2: {'ignorecase': True}, 3: {'nameguard': False},
             4: {'bogus_setting': 1}, 5: {'parseinfo': True}, 6: {'memoization': False}}
+# regex-valued settings in different FORMS (generated by the harness from the seed): the text of a pattern as a plain
+# string, the same text precompiled without flags, the same text precompiled WITH flags.  {'$re': text, 'flags': n}
+# stands for re.compile(text, n); the object is built once per process (as a program keeps its compiled patterns).
+def _setting_value(v):
+    if isinstance(v, dict) and '$re' in v:
+        return re.compile(v['$re'], v.get('flags', 0))
+    return v
+for _k, _v in EXTRA.get('settings', {}).items():
+    SETTINGS[int(_k)] = {kk: _setting_value(vv) for kk, vv in _v.items()}
 
 class B1(Node):
     pass
@@ -353,8 +373,8 @@ def compile_kwargs(a):
     kw.update(bopt(a.get('bopt')))
     return kw
 
-def do_compile(a):
-    return tatsu.compile(GRAMMARS[a['g']], name=NAMES[a['name']], **compile_kwargs(a))
+def do_compile(a, text=None):
+    return tatsu.compile(GRAMMARS[a['g']] if text is None else text, name=NAMES[a['name']], **compile_kwargs(a))
 
 def build_sem(s):
     if s is None or s == 'none': return None
@@ -602,46 +622,236 @@ def op_writeset(op):
             'types': {}}
 
 # ---- threads
+def collect_classes(x, out, seen, depth=0):
+    """the node CLASS objects of a result, by class name (kept alive by the caller, so that id() is meaningful)"""
+    if depth > 40 or id(x) in seen: return
+    if isinstance(x, (str, bytes, int, float, bool, type(None))): return
+    seen.add(id(x))
+    if isinstance(x, dict):
+        for v in list(x.values()): collect_classes(v, out, seen, depth + 1)
+    elif isinstance(x, (list, tuple, set, frozenset)):
+        for v in list(x): collect_classes(v, out, seen, depth + 1)
+    elif hasattr(x, '__dict__') and not isinstance(x, type):
+        if any(c.__name__ == 'BaseNode' for c in type(x).__mro__):
+            out.setdefault(type(x).__name__, {})[id(type(x))] = type(x)
+            for k, v in list(vars(x).items()):
+                if not k.startswith('_') and k not in ('parseinfo', 'ctx'):
+                    collect_classes(v, out, seen, depth + 1)
+
+def retype(text, suffix):
+    """the same grammar with type names nobody has used in this process (rule::Type -> rule::Type<suffix>): the
+    process-wide class registry is cold for them"""
+    return re.sub(r'::([A-Za-z_][A-Za-z_0-9]*)', lambda m: '::' + m.group(1) + suffix, text)
+
+# ---- forced preemption.  Whether the interpreter switches threads inside a window of a few lines is the
+# environment's choice; here the adversarial choice is made on purpose.  The functions that touch state shared by the
+# threads (module-level containers / locks / function caches, the class registry, cached attributes of the shared model)
+# and their direct callers are found by inspection of the modules; sys.monitoring LINE events of exactly those code
+# objects make every participating thread wait, before each line, until ALL running threads stand before the same line
+# (or a few milliseconds have passed: the others are blocked on a lock or took another path).  The threads thus
+# execute the watched functions in lock step: every check of a check-then-act sequence is done by all the threads
+# before any of them acts.  Only the first executions of each function by each thread are driven (the caches are cold then).
+LOCKSTEP_MODULES = ['tatsu.objectmodel.synth', 'tatsu.objectmodel.builder', 'tatsu.api.api', 'tatsu.util.regextools',
+                    'tatsu.util.typetools', 'tatsu.contexts.core', 'tatsu.contexts.engine', 'tatsu.peg.base',
+                    'tatsu.config', 'tatsu.util.configs', 'tatsu.input.textlines', 'tatsu.parsing',
+                    'tatsu.objectmodel.basenode', 'tatsu.boot.generator']
+LOCKSTEP_ATTRS = {'_optimized', '_registry', '_BIND_CACHE'}
+_LOCK_TYPES = (type(threading.Lock()), type(threading.RLock()))
+
+def _module_codes(mod):
+    out, seen = [], set()
+    fn = getattr(mod, '__file__', None)
+    def add_code(c):
+        if c in seen or c.co_filename != fn: return
+        seen.add(c); out.append(c)
+        for k in c.co_consts:
+            if isinstance(k, types.CodeType): add_code(k)
+    def visit(o, depth=0):
+        if isinstance(o, (staticmethod, classmethod)): o = o.__func__
+        if isinstance(o, property):
+            for f in (o.fget, o.fset, o.fdel):
+                if f: visit(f, depth + 1)
+            return
+        if isinstance(o, functools.cached_property): o = o.func
+        w = getattr(o, '__wrapped__', None)
+        if w is not None and depth < 4: visit(w, depth + 1)
+        if isinstance(o, types.FunctionType): add_code(o.__code__)
+        elif isinstance(o, type) and o.__module__ == mod.__name__ and depth < 3:
+            for v in list(vars(o).values()): visit(v, depth + 1)
+    for v in list(vars(mod).values()): visit(v)
+    return out
+
+def lockstep_codes():
+    watched = []
+    for mn in LOCKSTEP_MODULES:
+        try: mod = importlib.import_module(mn)
+        except Exception: continue
+        names = set(LOCKSTEP_ATTRS)
+        for k, v in list(vars(mod).items()):
+            if k.startswith('__') and k.endswith('__'): continue
+            if isinstance(v, (dict, set, list) + _LOCK_TYPES): names.add(k)
+            if hasattr(v, 'cache_info') and hasattr(v, '__wrapped__'): names.add(k)
+        codes = _module_codes(mod)
+        direct = [c for c in codes if (set(c.co_names) | set(c.co_freevars)) & names
+                  or (hasattr(vars(mod).get(c.co_name), 'cache_info'))]
+        callee = {c.co_name for c in direct}
+        callers = [c for c in codes if c not in direct and c.co_name not in callee and set(c.co_names) & callee]
+        watched += direct + callers
+    return watched
+
+class LockStep:
+    def __init__(self, visits, timeout):
+        self.visits, self.timeout = visits, timeout
+        self.codes = lockstep_codes()
+        self.cv = threading.Condition()
+        self.points = {}
+        self.tls = threading.local()
+        self.active = 0
+        self.tool = None
+        self.stat = {'watched_functions': len(self.codes), 'syncs': 0, 'all_arrived': 0, 'timeouts': 0}
+    def install(self):
+        mon = sys.monitoring
+        for tid in (mon.PROFILER_ID, mon.COVERAGE_ID, 3, 4):
+            try:
+                mon.use_tool_id(tid, 'c10-lockstep'); self.tool = tid; break
+            except ValueError:
+                continue
+        mon.register_callback(self.tool, mon.events.PY_START, self.on_start)
+        mon.register_callback(self.tool, mon.events.LINE, self.on_line)
+        for c in self.codes:
+            mon.set_local_events(self.tool, c, mon.events.LINE | mon.events.PY_START)
+    def remove(self):
+        mon = sys.monitoring
+        for c in self.codes:
+            mon.set_local_events(self.tool, c, 0)
+        mon.register_callback(self.tool, mon.events.PY_START, None)
+        mon.register_callback(self.tool, mon.events.LINE, None)
+        mon.free_tool_id(self.tool)
+    def begin_round(self, n):
+        with self.cv:
+            self.active = n
+            self.points = {}
+    def enter(self):
+        self.tls.seen = {}
+        self.tls.on = True
+    def leave(self):
+        self.tls.on = False
+        with self.cv:
+            self.active -= 1
+            for st in self.points.values():
+                if st[0] and st[0] >= self.active:
+                    st[0] = 0; st[1] += 1
+            self.cv.notify_all()
+    def on_start(self, code, offset):
+        tls = self.tls
+        if getattr(tls, 'on', False):
+            tls.seen[code] = tls.seen.get(code, 0) + 1
+    def on_line(self, code, line):
+        tls = self.tls
+        if not getattr(tls, 'on', False) or tls.seen.get(code, 0) > self.visits:
+            return
+        tls.on = False
+        try:
+            self.sync((code, line))
+        finally:
+            tls.on = True
+    def sync(self, point):
+        with self.cv:
+            self.stat['syncs'] += 1
+            st = self.points.setdefault(point, [0, 0])
+            st[0] += 1
+            if st[0] >= self.active:
+                st[0] = 0; st[1] += 1
+                self.stat['all_arrived'] += 1
+                self.cv.notify_all()
+                return
+            gen = st[1]
+            if not self.cv.wait_for(lambda: st[1] != gen, self.timeout) and st[1] == gen:
+                st[0] -= 1
+                self.stat['timeouts'] += 1
+
 def op_threads(op):
     sys.setswitchinterval(1e-6)
     calls = op['calls']
-    def one(m, p):
-        try: return canon_ok(mparse_call(m, p))
-        except Exception as e: return canon_exc(e)
-    m = do_compile(op['a'])
+    cold, fresh_types, tcompile = op['cold'], bool(op.get('fresh_types')), bool(op.get('tcompile'))
+    keep = []          # every result object stays alive until the end: class identities are compared by id()
+    def one(m, p, classes=None):
+        try:
+            r = mparse_call(m, p)
+            if classes is not None:
+                keep.append(r)
+                collect_classes(r, classes, set())
+            return canon_ok(r)
+        except Exception as e:
+            return canon_exc(e)
+    def clear_compile_cache():
+        import tatsu.api.api as _api
+        for v in vars(_api).values():
+            if isinstance(v, dict) and v and all(isinstance(k, tuple) for k in v): v.clear()
+    ls = None
+    if op.get('lockstep'):
+        ls = LockStep(op['lockstep']['visits'], op['lockstep']['timeout'])
+    text = None
+    m = None
     seq = None
-    if not op['cold']:
+    if not cold:
+        m = do_compile(op['a'])
         seq = [one(m, p) for p in calls]
-    rounds = []
-    for _ in range(op['rounds']):
-        if op['cold']:
-            # a model nobody has parsed with yet: all caches (optimized copy, rule infos, synthesized classes) cold
-            import tatsu.api.api as _api
-            for v in vars(_api).values():
-                if isinstance(v, dict) and v and all(isinstance(k, tuple) for k in v): v.clear()
-            m = do_compile(op['a'])
-        res = [None] * len(calls)
-        bar = threading.Barrier(len(calls))
-        def w(i):
-            bar.wait()
-            acc = []
-            for _ in range(op['reps']):
-                acc.append(one(m, calls[i]))
-            res[i] = acc
-        ts = [threading.Thread(target=w, args=(i,)) for i in range(len(calls))]
-        for t in ts: t.start()
-        for t in ts: t.join()
-        rounds.append(res)
-    if seq is None:
-        seq = [one(m, p) for p in calls]
-    bad = []
-    for rn, res in enumerate(rounds):
-        for i, acc in enumerate(res):
-            for r in acc:
-                if r != seq[i]:
-                    bad.append({'thread': i, 'round': rn, 'got': r, 'want': seq[i]})
-    return {'ok': 'threads', 'bad': bad[:5], 'nbad': len(bad), 'n': sum(len(a) for res in rounds for a in res),
-            'seq': seq, 'types': {}}
+    bad, idbad, n = [], [], 0
+    if ls: ls.install()
+    try:
+        for rn in range(op['rounds']):
+            if cold:
+                # a model nobody has parsed with yet: all caches (optimized copy, rule infos, synthesized classes) cold
+                clear_compile_cache()
+                if fresh_types:
+                    text = retype(GRAMMARS[op['a']['g']], 'R%d' % rn)
+                if not tcompile:
+                    m = do_compile(op['a'], text)
+            res = [None] * len(calls)
+            classes = {}
+            bar = threading.Barrier(len(calls))
+            if ls: ls.begin_round(len(calls))
+            def w(i):
+                acc = []
+                bar.wait()
+                if ls: ls.enter()
+                try:
+                    for _ in range(op['reps']):
+                        try:
+                            # tcompile: every thread obtains the model itself (module-level API from many threads)
+                            mm = do_compile(op['a'], text) if tcompile else m
+                        except Exception as e:
+                            acc.append(canon_exc(e))
+                            continue
+                        acc.append(one(mm, calls[i], classes))
+                finally:
+                    if ls: ls.leave()
+                res[i] = acc
+            ts = [threading.Thread(target=w, args=(i,)) for i in range(len(calls))]
+            for t in ts: t.start()
+            for t in ts: t.join()
+            want = seq
+            if cold:
+                # what each call returns when it is the only one: the same (now warm) model, one call after the other
+                try:
+                    mm = do_compile(op['a'], text) if tcompile else m
+                    want = [one(mm, p, classes) for p in calls]
+                except Exception as e:
+                    want = [canon_exc(e)] * len(calls)
+            for i, acc in enumerate(res):
+                for r in acc or [{'exc': 'THREAD-DIED'}]:
+                    n += 1
+                    if r != want[i]:
+                        bad.append({'thread': i, 'round': rn, 'got': r, 'want': want[i]})
+            for name, objs in sorted(classes.items()):
+                if len(objs) > 1:
+                    idbad.append({'round': rn, 'class': name, 'distinct_objects': len(objs)})
+            seq = want
+    finally:
+        if ls: ls.remove()
+    return {'ok': 'threads', 'bad': bad[:5], 'nbad': len(bad), 'idbad': idbad[:5], 'n': n,
+            'seq': seq, 'lockstep': ls.stat if ls else None, 'types': {}}
 
 def run_script(script):
     env = Env()
@@ -711,6 +921,7 @@ def worker_env():
 
 
 EPH_TOTAL = {'made': 0, 'collected': 0, 'address_reused': 0}
+LOCKSTEP_TOTAL: dict = {}
 _EPH_TOTAL_LOCK = threading.Lock()
 
 
@@ -854,10 +1065,13 @@ def _inside_miss_branch(fn, node) -> bool:
 
 # =============================================================================== pool description (harness side)
 SIBLINGS = [7, 8, 9]
-GRAMS = [1, 2, 3, 4, 5, 6] + SIBLINGS
-NTEXT = {1: 8, 2: 5, 3: 5, 4: 5, 5: 4, 6: 5, 7: 6, 8: 6, 9: 6}
+REGEX_GRAMS = [10, 11, 12]
+GRAMS = [1, 2, 3, 4, 5, 6] + SIBLINGS + REGEX_GRAMS
+NTEXT = {1: 8, 2: 5, 3: 5, 4: 5, 5: 4, 6: 5, 7: 6, 8: 6, 9: 6, 10: 7, 11: 7, 12: 7}
 GSTARTS = {1: [0, 0, 1, 6, 7, 8], 2: [0, 0, 5], 3: [0, 0, 1], 4: [0, 0, 2, 3, 4, 6], 5: [0, 0, 5], 6: [0, 0, 1],
-           7: [0, 0, 1, 7, 8], 8: [0, 0, 1, 7, 8], 9: [0, 0, 1, 7, 8]}
+           7: [0, 0, 1, 7, 8], 8: [0, 0, 1, 7, 8], 9: [0, 0, 1, 7, 8],
+           10: [0, 0, 0, 1, 7], 11: [0, 0, 0, 1, 7], 12: [0, 0, 0, 1, 7]}
+TYPED_GRAMS = [2, 3, 4, 5]      # grammars whose rules name node types (rule::Type): classes are synthesized on first use
 ALL_SEMS = [1, 2, 3, 4, 5, 6, 7, 8]
 TWIN_SEMS = {7, 8}
 
@@ -883,6 +1097,144 @@ def gen_siblings(rng):
                        f"pair{typed} = k:`{c}` v:num ;\n"
                        f"num = /\\d+/ ;\n")
     return {'grammars': grammars, 'texts': {g: SIBLING_TEXTS for g in SIBLINGS}}
+
+
+# ---- regex-valued settings in different forms
+# ids of the generated settings (worker: SETTINGS[7..12]); R_W*: the whitespace pattern, R_C*: both comment patterns
+R_W_STR, R_W_RE, R_W_REFLAG, R_C_STR, R_C_REFLAG, R_MIXED = 7, 8, 9, 10, 11, 12
+REGEX_SETTINGS = [R_W_STR, R_W_RE, R_W_REFLAG, R_C_STR, R_C_REFLAG, R_MIXED]
+REGEX_FORM_NAMES = {7: 'whitespace:str', 8: 'whitespace:compiled', 9: 'whitespace:compiled+flags', 10: 'comments:str',
+                    11: 'comments:compiled+flags', 12: 'mixed'}
+REGEX_FORM_GROUPS = [[R_W_STR, R_W_RE, R_W_REFLAG, R_MIXED], [R_C_STR, R_C_REFLAG, R_MIXED]]
+RE_I, RE_M, RE_S, RE_X = 2, 8, 16, 64      # re.IGNORECASE, MULTILINE, DOTALL, VERBOSE
+
+
+def gen_regex_family(rng):
+    """Patterns for the three regex-valued settings (whitespace, comments, eol_comments), chosen from the seed, each in
+    several FORMS that have the same pattern TEXT: plain string, precompiled without flags, precompiled with a flag that
+    changes what the text matches; plus the same texts written in grammars (as @@directives, as a /pattern/ of a rule).
+    The texts to parse contain the places where the flags matter (the letter of the whitespace pattern in the other case,
+    a comment that spans a line break, an end-of-line comment that is not on the last line)."""
+    c = rng.choice('kmpqtvwz')
+    C = c.upper()
+    wtext, wflag = rng.choice([(f'[ {c}]+', RE_I), (f'(?:\\s|{c})+', RE_I), (f'[\\s{c}]+', RE_I),
+                               (f'\\s+ | {c}', RE_X), (f'(?:{c} | \\s)+', RE_X | RE_I)])
+    wflag |= rng.choice([0, 0, RE_S, RE_M])
+    op, cl = rng.choice([('(*', '*)'), ('<#', '#>'), ('{-', '-}'), ('[[', ']]')])
+    esc = lambda t: ''.join('\\' + ch for ch in t)
+    ctext = esc(op) + '.*?' + esc(cl)                      # needs DOTALL to span a line break
+    e = rng.choice(['--', '#', ';;', '%'])
+    etext = rng.choice([esc(e) + '.*?$', esc(e) + '.*$'])    # needs MULTILINE before the last line
+    sre = lambda t, f: {'$re': t, 'flags': f}
+    settings = {
+        R_W_STR: {'whitespace': wtext},
+        R_W_RE: {'whitespace': sre(wtext, 0)},
+        R_W_REFLAG: {'whitespace': sre(wtext, wflag)},
+        R_C_STR: {'comments': ctext, 'eol_comments': etext},
+        R_C_REFLAG: {'comments': sre(ctext, RE_S), 'eol_comments': sre(etext, RE_M)},
+        R_MIXED: {'whitespace': sre(wtext, wflag), 'comments': sre(ctext, RE_S | rng.choice([0, RE_I])), 'eol_comments': etext},
+    }
+    body = ("start = {item}+ $ ;\n"
+            "item = word | num ;\n"
+            "word = /[A-Za-z]+/ ;\n"
+            "num = /\\d+/ ;\n")
+    grammars = {
+        10: "\n" + body,
+        # the same pattern texts, plain, given by directives of the grammar
+        11: f"\n@@whitespace :: /{wtext}/\n@@comments :: /{ctext}/\n@@eol_comments :: /{etext}/\n" + body,
+        # the text of the whitespace pattern as the pattern of a rule
+        12: "\n" + body.replace('item = word', 'item = gap | word').replace('num = ', f'gap = /{wtext}/ ;\nnum = '),
+    }
+    texts = [f'a {C} b {c} d', f'a{c} {C}b 12 {C}{C} {c}', f'a {op} x\n y {cl} b {C} 1', f'a {e} rest {C}\nb {c} 2',
+             f'{C}', f'a {op} {c} {cl} {C} {e} z', '']
+    return {'grammars': grammars, 'texts': {g: texts for g in REGEX_GRAMS}, 'settings': settings,
+            'describe': {'letter': c, 'whitespace': wtext, 'flags': wflag, 'comments': ctext, 'eol_comments': etext}}
+
+
+def regexify(rng, ops, focus):
+    """The calls of a history get their regex-valued settings in the generated forms (at parse time mostly: at compile
+    time the settings also configure the bootstrap parse of the grammar text)."""
+    for o in ops:
+        k = o['op']
+        if k in ('compile', 'cparse') and rng.random() < 0.15:
+            o['a']['cs'] = rng.choice(REGEX_SETTINGS)
+        if k in ('mparse', 'cparse', 'pparse'):
+            if rng.random() < 0.7:
+                o['p']['ps'] = rng.choice(REGEX_SETTINGS)
+            if rng.random() < 0.15:
+                o['p']['cfgobj'] = rng.choice(REGEX_SETTINGS)
+        if k == 'tparse':
+            t = o['t']
+            if t['g'] not in focus:
+                t['g'] = rng.choice(focus)
+                t['text'] = rng.randrange(NTEXT[t['g']])
+                t['start'] = rng.choice(GSTARTS[t['g']])
+            if rng.random() < 0.7:
+                t['ts'] = rng.choice(REGEX_SETTINGS)
+            if rng.random() < 0.15:
+                t['cfgobj'] = rng.choice(REGEX_SETTINGS)
+        if k == 'mkparser':
+            if rng.random() < 0.4:
+                o['cs'] = rng.choice(REGEX_SETTINGS)
+            if rng.random() < 0.2:
+                o['ccfg'] = rng.choice(REGEX_SETTINGS)
+    return ops
+
+
+def directed_regex_forms(rng):
+    """every form of a pattern text used after every other form of the same text (settings of parse / tatsu.parse /
+    a generated parser object), and the grammars that carry the plain text used after / before the precompiled forms"""
+    out = []
+    ca = {'name': 0, 'sem': None, 'asmodel': False, 'bopt': None, 'cs': 0}
+    pp = {'start': 0, 'ps': 0, 'sem': None, 'asmodel': False, 'cfgobj': None}
+    tt = {'start': 0, 'name': 0, 'ts': 0, 'sem': None, 'asmodel': False, 'bopt': None, 'cfgobj': None}
+    for grp in REGEX_FORM_GROUPS:
+        for fa in grp:
+            for fb in grp:
+                if fa == fb or (R_MIXED in (fa, fb) and rng.random() < 0.6):
+                    continue
+                g = 10
+                tx = rng.randrange(NTEXT[g] - 1)
+                h = [{'op': 'cparse', 'a': dict(ca, g=g), 'p': dict(pp, g=g, text=tx, ps=fa)},
+                     {'op': 'cparse', 'a': dict(ca, g=g), 'p': dict(pp, g=g, text=tx, ps=fb)},
+                     {'op': 'tparse', 't': dict(tt, g=g, text=tx, ts=fa)},
+                     {'op': 'tparse', 't': dict(tt, g=rng.choice(REGEX_GRAMS), text=rng.randrange(4), ts=fb)}]
+                out.append(h)
+    for g in (11, 12):
+        for f in (R_W_REFLAG, R_C_REFLAG, rng.choice([R_W_RE, R_MIXED])):
+            tx = rng.randrange(4)
+            plain = {'op': 'cparse', 'a': dict(ca, g=g), 'p': dict(pp, g=g, text=tx)}
+            other = {'op': 'cparse', 'a': dict(ca, g=10), 'p': dict(pp, g=10, text=tx, ps=f)}
+            out.append([other, plain, {'op': 'tparse', 't': dict(tt, g=g, text=rng.randrange(4))}])
+            out.append([plain, other, {'op': 'tparse', 't': dict(tt, g=10, text=tx, ts=f)}])
+    # one generated parser object: the forms given to the constructor and per call
+    for fa, fb in ((R_W_REFLAG, R_W_STR), (R_W_STR, R_W_REFLAG), (R_C_REFLAG, R_C_STR), (R_MIXED, R_W_RE)):
+        tx = rng.randrange(4)
+        out.append([{'op': 'gen', 'var': 0, 'a': {'g': 10, 'name': 0, 'cs': 0}},
+                    {'op': 'mkparser', 'var': 0, 'src': 0, 'cs': fa, 'sem': None, 'ccfg': None},
+                    {'op': 'pparse', 'var': 0, 'p': dict(pp, g=10, text=tx)},
+                    {'op': 'mkparser', 'var': 1, 'src': 0, 'cs': 0, 'sem': None, 'ccfg': None},
+                    {'op': 'pparse', 'var': 1, 'p': dict(pp, g=10, text=tx, ps=fb)},
+                    {'op': 'pparse', 'var': 0, 'p': dict(pp, g=10, text=tx)}])
+    return out
+
+
+def directed_parser_settings(rng):
+    """ONE generated parser object per grammar, and on it every text under every per-call setting, in a shuffled order
+    (for the grammars of the regex family: under every form of the regex settings): whatever a parse leaves on the
+    parser object - or computes once per object - under one setting meets every other setting and every text."""
+    out = []
+    for g in GRAMS:
+        texts = rng.sample(range(NTEXT[g]), min(4, NTEXT[g]))
+        sets = [0] + rng.sample(REGEX_SETTINGS, 5) if g in REGEX_GRAMS else [0, 1, 2, 3, 5, 6]
+        cells = [(t, ps) for t in texts for ps in sets]
+        rng.shuffle(cells)
+        h = [{'op': 'gen', 'var': 0, 'a': {'g': g, 'name': 0, 'cs': 0}},
+             {'op': 'mkparser', 'var': 0, 'src': 0, 'cs': 0, 'sem': None, 'ccfg': None}]
+        h += [{'op': 'pparse', 'var': 0, 'p': {'g': g, 'text': t, 'start': 0, 'ps': ps, 'sem': None, 'asmodel': False,
+                                               'cfgobj': None}} for t, ps in cells]
+        out.append(h)
+    return out
 
 
 # short-lived semantics objects (worker: EPH_KINDS): the number names ONE object, created for the call that carries it
@@ -945,7 +1297,7 @@ def directed_ephemeral(rng):
     return out
 
 
-VALID_SETTINGS = [0, 1, 2, 3, 5, 6]
+VALID_SETTINGS = [0, 1, 2, 3, 5, 6] + REGEX_SETTINGS
 INVALID_SETTINGS = [4]
 OPAQUE_BOPTS = {4, 5}     # builderconfig / typedefs objects cannot be part of a cache key
 
@@ -1007,6 +1359,10 @@ def gen_history(rng, maxlen):
     if rng.random() < 0.25:
         # sibling grammars: equal-valued scalars of different types meet in one process
         focus = rng.sample(SIBLINGS, rng.choice([2, 3]))
+    regex_mode = rng.random() < 0.2
+    if regex_mode:
+        # the grammars of the regex-form family: one pattern text reaches the input layer in several forms
+        focus = rng.sample(REGEX_GRAMS, rng.choice([1, 2, 3]))
     n = rng.randint(2, maxlen)
     ops = []
     mvars, svars, pvars = [], [], []
@@ -1063,6 +1419,8 @@ def gen_history(rng, maxlen):
         else:
             a = gen_cargs(rng, rng.choice(focus))
             ops.append({'op': 'cparse', 'a': a, 'p': gen_pargs(rng, a['g'])})
+    if regex_mode:
+        regexify(rng, ops, focus)
     return ops
 
 
@@ -1214,12 +1572,14 @@ def unexplained_sig(h, i, kind, rh, r0):
 # =============================================================================== A1
 def run_histories(chk: Check, pool: Pool, mr: ModelRun, variant: str):
     rng = chk.rng
-    nh = 160 if chk.quick else 1500
+    nh = 110 if chk.quick else 1500
     maxlen = 8 if chk.quick else 12
     histories = [gen_history(rng, maxlen) for _ in range(nh)]
     # histories whose calls bring their own short-lived semantics objects
     histories += [ephemeralize(rng, gen_history(rng, maxlen)) for _ in range(40 if chk.quick else 400)]
     histories += directed_ephemeral(rng)
+    histories += directed_regex_forms(rng)
+    histories += directed_parser_settings(rng)
     # directed histories around the witnesses of the Coq refutation, so that the cache paths are always reached
     for g in GRAMS:
         histories.append([{'op': 'compile', 'var': 0, 'a': {'g': g, 'name': 0, 'sem': None, 'asmodel': False, 'bopt': None, 'cs': 0}},
@@ -1261,7 +1621,19 @@ def run_histories(chk: Check, pool: Pool, mr: ModelRun, variant: str):
     ab = Abstraction(variant)
     # boot table: which (name, g, settings) fail in the bootstrap parse - measured in fresh processes
     boot_scripts = []
-    triples = [(nm, g, cs) for nm in (0, 1, 2) for g in GRAMS for cs in VALID_SETTINGS]
+    # (the generated regex settings are only used with the grammars of their family,
+    # and the table is measured for the (name, grammar, settings) of the compiles the histories can make: the model
+    # asks boot_ok for nothing else - a missing entry that fails would show up as corr:api-model, never silently)
+    needed = {(0, g, 0) for g in GRAMS}
+    for h in histories:
+        for o in h:
+            a, t = o.get('a'), o.get('t')
+            if a:
+                needed |= {(a['name'], a['g'], a.get('cs', 0)), (a['name'], a['g'], 0)}
+            if t:
+                needed |= {(t['name'], t['g'], t['ts']), (0, t['g'], t['ts']), (t['name'], t['g'], 0)}
+    triples = [(nm, g, cs) for nm in (0, 1, 2) for g in GRAMS for cs in VALID_SETTINGS
+               if (cs not in REGEX_SETTINGS or g in REGEX_GRAMS) and (nm, g, cs) in needed]
     for nm, g, cs in triples:
         boot_scripts.append([{'op': 'compile', 'var': 0, 'a': {'g': g, 'name': nm, 'sem': None, 'asmodel': False,
                                                                'bopt': None, 'cs': cs}}])
@@ -1328,6 +1700,10 @@ def run_histories(chk: Check, pool: Pool, mr: ModelRun, variant: str):
         for x in _op_sems(o):
             if x is not None and x >= EPH_BASE:
                 chk.count('A1.short_lived_semantics.' + eph_kind(x))
+        for d, key in ((o.get('a'), 'cs'), (o.get('p'), 'ps'), (o.get('t'), 'ts'), (o, 'cs'), (o.get('p'), 'cfgobj'),
+                       (o.get('t'), 'cfgobj'), (o, 'ccfg')):
+            if d and d.get(key) in REGEX_SETTINGS:
+                chk.count('A1.regex_setting_form.' + REGEX_FORM_NAMES[d[key]])
         if 'exc' in rh:
             chk.count('A1.calls_raising')
         if rh.get('mutated'):
@@ -1590,11 +1966,40 @@ def run_threads(chk: Check, pool: Pool):
             calls.append(p)
         scripts.append([{'op': 'threads', 'a': a, 'calls': calls, 'cold': cold, 'rounds': 4 if cold else 2,
                          'reps': 3 if cold else 12}])
+    # forced preemption: the first parses on a cold model whose type names nobody has used yet, the threads driven in
+    # lock step through every function that touches state they share (see LockStep in the worker)
+    nl = 6 if chk.quick else 40
+    for j in range(nl):
+        g = TYPED_GRAMS[j % len(TYPED_GRAMS)] if j % 5 != 4 else rng.choice(GRAMS)
+        a = {'g': g, 'name': rng.choice([0, 0, 1]), 'sem': None, 'asmodel': False, 'bopt': None, 'cs': 0}
+        how = j % 4
+        if how in (0, 1):
+            a['asmodel'] = True                      # the model's own builder semantics, shared by the threads
+        elif how == 2:
+            a['bopt'] = rng.choice([1, 2])           # builder with a base type
+        else:
+            a['sem'] = rng.choice([4, 5])            # ONE ModelBuilderSemantics object given by the caller
+        nthreads = rng.choice([2, 3, 4, 6])
+        calls = []
+        for _ in range(nthreads):
+            p = gen_pargs(rng, g)
+            p.update(cfgobj=None, ps=0, sem=None, asmodel=False)
+            if rng.random() < 0.7:
+                p['start'] = 0
+                p['text'] = rng.randrange(min(2, NTEXT[g]))     # texts that parse: nodes are built
+            calls.append(p)
+        scripts.append([{'op': 'threads', 'a': a, 'calls': calls, 'cold': True, 'rounds': 2, 'reps': 2,
+                         'fresh_types': True, 'tcompile': j % 3 == 2,
+                         'lockstep': {'visits': rng.choice([2, 3]), 'timeout': 0.003}}])
     res = [r[-1] for r in pool.map(scripts)]
     nbad = 0
     for sc, r in zip(scripts, res):
         chk.case('threads:' + json.dumps(sc, sort_keys=True))
         chk.count('T.thread_scripts')
+        if sc[0].get('lockstep'):
+            chk.count('T.lockstep_scripts')
+            for k, v in (r.get('lockstep') or {}).items():
+                LOCKSTEP_TOTAL[k] = LOCKSTEP_TOTAL.get(k, 0) + v
         if 'exc' in r:
             chk.count('T.compile_failed')
             continue
@@ -1612,13 +2017,28 @@ def run_threads(chk: Check, pool: Pool):
             chk.violation(sig, f'a parse on a model shared by {len(sc[0]["calls"])} threads returned {json.dumps(b["got"])[:120]} '
                                f'instead of its sequential result {json.dumps(b["want"])[:120]}',
                           {'oracle': 'threads vs sequential', 'script': sc, 'bad': r['bad'], 'nbad': r['nbad']})
+        if r.get('idbad'):
+            b = r['idbad'][0]
+            chk.violation('threads:two-classes-of-one-name',
+                          f'parses on a model shared by {len(sc[0]["calls"])} threads returned nodes of '
+                          f'{b["distinct_objects"]} different classes that are all named {b["class"]!r}',
+                          {'oracle': 'threads: one class object per type name', 'script': sc, 'bad': r['idbad']})
+    chk.obligation('T:the forced-preemption driver found the shared-state functions and brought the threads together in them',
+                   'oracle', LOCKSTEP_TOTAL.get('watched_functions', 0) > 0 and LOCKSTEP_TOTAL.get('all_arrived', 0) > 0,
+                   json.dumps(LOCKSTEP_TOTAL))
     chk.obligation('T:threaded results equal sequential results (up to the recorded findings)', 'oracle',
                    not any(v['signature'].startswith('threads:') for v in chk.violations), f'{nbad} scripts differ')
 
 
 def main():
     chk = Check(PID)
-    EXTRA_ENV['json'] = json.dumps(gen_siblings(chk.rng), sort_keys=True)
+    extra = gen_siblings(chk.rng)
+    fam = gen_regex_family(chk.rng)
+    extra['grammars'].update(fam['grammars'])
+    extra['texts'].update(fam['texts'])
+    extra['settings'] = fam['settings']
+    chk.extra['regex_form_family'] = fam['describe']
+    EXTRA_ENV['json'] = json.dumps(extra, sort_keys=True)
     chk.rule = ('A1: random histories (2..8 calls quick, 2..12 thorough) of compile / model.parse / compile+parse / '
                 'tatsu.parse / to_python_sourcecode / generated parser construction and parse (parser objects get asmodel=, '
                 'config=, semantics=, settings, start like model.parse), focused on 1-2 of 9 grammars so that cache keys '
@@ -1630,14 +2050,22 @@ def main():
                 'thread scripts whose calls build a semantics object for that call only and drop it (8 classes: no applicable '
                 'action / bound / static / class methods / __getattr__ functions / _default only / partial), the worker '
                 'choosing the address of a finalised semantics object for a new one whenever one is free; every call compared '
-                'TYPE-EXACTLY with a fresh process and with Lib/Api.v; write set of every configuration object a call sees. '
-                'A2: deep attribute write set of 3 parses on one model. T: 3-6 threads on one shared model (warm and cold). '
+                'TYPE-EXACTLY with a fresh process and with Lib/Api.v; write set of every configuration object a call sees; '
+                '20 % of the histories and 30 directed ones over 3 seed-generated grammars / 6 settings that carry ONE pattern '
+                'text per regex-valued setting (whitespace, comments, eol_comments) in several forms: plain string, precompiled, '
+                'precompiled with flags that change the match, @@directive, /pattern/ of a rule. '
+                'A2: deep attribute write set of 3 parses on one model. T: 3-6 threads on one shared model (warm and cold), '
+                'plus 6 (40 thorough) scripts of 2-6 threads making the first parses on a cold model with type names new to the '
+                'process (asmodel / basetype / a shared ModelBuilderSemantics; the model shared or obtained by each thread from '
+                'the module-level API), driven in lock step through every function that touches shared state (forced preemption '
+                'before each line, sys.monitoring); oracles: sequential results and one class object per type name. '
                 'Non-trivial: the call has at least one earlier call; distinct by content of the history prefix.')
     chk.trusted += ['CPython 3.12 (fork, threads, GIL), the abstraction of call arguments to Lib/Api.v identities '
                     '(harness Abstraction), sha256 injective on the pool grammars',
                     'modelled: api.compile cache + post-lookup mutation, api.parse, to_python_sourcecode, Grammar.parse '
                     'semantics precedence, bound() field discipline; not modelled: the parse itself (section variable), '
-                    'synthesized-class registry (oracle only), bytecode-level atomicity (threads: sampled schedules)']
+                    'synthesized-class registry (oracle only), bytecode-level atomicity (threads: sampled schedules and '
+                    'line-level lock-step schedules forced with sys.monitoring)']
     chk.assumptions += ['semantics objects are truthy and are not classes', 'hasha(grammar) is injective',
                         'threads: the theorem covers the cache logic; the GIL makes dict get/set atomic']
     variant = source_shape(chk)
@@ -1649,15 +2077,22 @@ def main():
         mr = ModelRun('Api')
         pool = Pool(8)
         try:
-            replay_witnesses(chk, pool, variant)
-            run_histories(chk, pool, mr, variant)
-            run_writeset(chk, pool)
-            run_threads(chk, pool)
+            import time as _t
+            _t0 = _t.time()
+            for _f, _a in ((replay_witnesses, (chk, pool, variant)), (run_histories, (chk, pool, mr, variant)),
+                           (run_writeset, (chk, pool)), (run_threads, (chk, pool))):
+                _f(*_a)
+                if os.environ.get('C10_TIMING'):
+                    print(f'[timing] {_f.__name__}: {_t.time() - _t0:.1f}s', file=sys.stderr)
+                    _t0 = _t.time()
         finally:
             pool.close()
         # how the allocator treated the short-lived semantics objects (not deterministic, informative only): as long as
         # every id()-keyed cache keeps its key object alive, objects that took part in a parse are never collected
         chk.extra['short_lived_semantics_objects'] = dict(EPH_TOTAL)
+        # forced-preemption driver: rendezvous points reached / reached by all the running threads / given up after the
+        # timeout (informative, timing dependent)
+        chk.extra['lockstep_driver'] = dict(LOCKSTEP_TOTAL)
     chk.exhaustive = False
     return chk.finish()
 
